@@ -74,6 +74,15 @@ package liquid
 //@ panics nothing
 //@ requires args: e != nil && w != nil && !is(w, *render.trimWriter)
 //@ assigns *
+//@ ghost perr Val = nil
+//@ ghost rerr Val = nil
+//@ ghost rendered Bool = false
+//@ at call ParseTemplate #1: perr = result1
+//@ at call FRender #1 before assert sameWriter: arg1 == w && perr == nil
+//@ at call FRender #1: rerr = result
+//@ at call FRender #1: rendered = true
+//@ ensures parseError: perr != nil ==> result == perr && !rendered
+//@ ensures renderResult: perr == nil ==> rendered && result == rerr
 
 //@ func (*liquid.Engine).ParseAndRenderString
 //@ props C07 C02 C01
